@@ -83,11 +83,16 @@ func (s *singleWidthIndex) Unmarshal(r io.Reader) error {
 		return err
 	}
 
-	buf := make([]byte, dataLen)
-	if _, err := io.ReadFull(r, buf); err != nil {
+	// dataLen comes from the input and may be far larger than the data that follows it:
+	// let the buffer grow with the bytes that are actually there rather than allocating it up front.
+	var buf bytes.Buffer
+	if n, err := io.CopyN(&buf, r, int64(dataLen)); err != nil {
+		if err == io.EOF && n > 0 {
+			err = io.ErrUnexpectedEOF
+		}
 		return err
 	}
-	s.index = buf
+	s.index = buf.Bytes()
 	return nil
 }
 
